@@ -9,6 +9,10 @@ Abstract syntax (JSON-able):
         | {"k":"def","kind":"function"|"class","name":n,"params":[..],"body":[item..]}
         | {"k":"lambda","params":[..],"x":n}   (lambda ps: n)(0,..)   -- a use of n inside a lambda scope
         | {"k":"comp","var":v,"x":n}           [n for v in [0]]       -- a use of n inside a comprehension
+          optional "it": y  (+ "itf": "bare"|"paren")   [n for v in y] / [n for v in (y)]: the outermost
+             iterable is a use of y in the ENCLOSING scope (evaluated there before the comprehension's
+             own scope exists), whatever the loop target is called ([a for a in a])
+          optional "cond": c                            [n for v in y if c]: a use of c inside the comprehension
 A `def` (function), `lambda` and `lamdef` item may carry "dflt": n - the LAST parameter has the
 default value `n` (`def f(p=n):`, `lambda p=n: ..`): a use of n in the ENCLOSING scope, looked up
 by jedi from the start of the def / of the lambda.
@@ -117,7 +121,23 @@ def plain(prog):
                 _occ(occs, it['x'], 'use', ln, len(s))
                 s += it['x'] + ' for '
                 _occ(occs, it['var'], 'bind', ln, len(s))
-                s += it['var'] + ' in [0]]'
+                s += it['var'] + ' in '
+                if it.get('it'):
+                    if it.get('itf') == 'paren':
+                        s += '('
+                    _occ(occs, it['it'], 'use', ln, len(s))
+                    occs[-1]['part'] = 'iter'
+                    s += it['it']
+                    if it.get('itf') == 'paren':
+                        s += ')'
+                else:
+                    s += '[0]'
+                if it.get('cond'):
+                    s += ' if '
+                    _occ(occs, it['cond'], 'use', ln, len(s))
+                    occs[-1]['part'] = 'cond'
+                    s += it['cond']
+                s += ']'
                 lines.append(s)
             else:
                 raise ValueError(k)
@@ -218,9 +238,25 @@ def executable(prog):
             elif k == 'comp':
                 i = nid()
                 vi = nid()
-                lines.append('%stry: [_u(%d, %s) for %s in [(%r, %d)]]'
-                             % (pad, i, it['x'], it['var'], it['var'], vi))
-                lines.append('%sexcept NameError: _u(%d, _UNBOUND)' % (pad, i))
+                if it.get('it'):
+                    # the iterable stays where it is (Python decides in which scope it is evaluated);
+                    # _it reports the value it saw and hands out the loop variable's token
+                    yi = nid()
+                    itx = '_it(%d, %s, (%r, %d))' % (yi, it['it'] if it.get('itf') != 'paren' else '(%s)' % it['it'],
+                                                     it['var'], vi)
+                else:
+                    yi = -1
+                    itx = '[(%r, %d)]' % (it['var'], vi)
+                cond = ''
+                ci = -1
+                if it.get('cond'):
+                    ci = nid()
+                    cond = ' if _cd(%d, %s)' % (ci, it['cond'])
+                lines.append('%stry: [_u(%d, %s) for %s in %s%s]'
+                             % (pad, i, it['x'], it['var'], itx, cond))
+                # a NameError comes from the iterable (the program stops), the condition (stops: the
+                # element is never evaluated) or the element
+                lines.append('%sexcept NameError: _ce(%d, %d, %d)' % (pad, yi, ci, i))
     emit(prog, 0)
     return '\n'.join(lines) + '\n'
 
@@ -258,12 +294,36 @@ def run_executable(prog, occs):
         # the parameter: a use of the parameter sees the parameter's own token
         return (name, pid)
 
+    flags = set()
+
+    def _it(i, v, tok):
+        _u(i, v)
+        flags.add(i)
+        return [tok]
+
+    def _cd(i, v):
+        _u(i, v)
+        flags.add(i)
+        return 1
+
+    def _ce(yi, ci, i):
+        # NameError inside a comprehension statement: which part raised it?
+        y_ok = yi < 0 or yi in flags
+        c_ok = ci < 0 or ci in flags
+        flags.discard(yi)
+        flags.discard(ci)
+        if not y_ok:
+            _abort(yi)
+        if not c_ok:
+            _abort(ci)
+        _u(i, UNBOUND)
+
     def _abort(i):
         # an assignment whose right-hand side is unbound: the real program stops here with
         # NameError; the binding does not happen.  The program is not an executable program.
         seen.setdefault(i, set()).add(-1)
         raise _Abort()
-    g = {'_u': _u, '_c': _c, '_tok': _tok, '_abort': _abort, '_UNBOUND': UNBOUND, '__name__': '__scopes__'}
+    g = {'_u': _u, '_c': _c, '_tok': _tok, '_abort': _abort, '_it': _it, '_cd': _cd, '_ce': _ce, '_UNBOUND': UNBOUND, '__name__': '__scopes__'}
     import sys
     old = sys.getrecursionlimit()
     sys.setrecursionlimit(200)
@@ -343,6 +403,11 @@ def gen_items(rng, depth, kind, budget, allow):
                 pending.append({'k': 'call', 'x': name, 'n': len(params)})
         elif 'comp' in allow:
             items.append({'k': 'comp', 'var': rng.choice(NAMES), 'x': rng.choice(NAMES)})
+            if 'compit' in allow and rng.random() < 0.7:
+                # the iterable is a name; half of the time the loop target's own name
+                items[-1]['it'] = items[-1]['var'] if rng.random() < 0.5 else rng.choice(NAMES)
+                if rng.random() < 0.3:
+                    items[-1]['itf'] = 'paren'
         else:
             items.append({'k': 'use', 'x': rng.choice(NAMES)})
     items.extend(pending)
@@ -475,5 +540,55 @@ def flat(prog):
                 t = len(scopes) - 1
                 occs.append([nm(it['x']), ROLES['use'], t, len(occs)])
                 occs.append([nm(it['var']), ROLES['bind'], t, len(occs)])
+                if it.get('it'):
+                    # the outermost iterable: a use in the ENCLOSING scope (Python: evaluated before
+                    # the comprehension scope is entered; jedi: create_context returns the parent
+                    # context for it - Model/CompCtx, stream compctx)
+                    parts.append([len(occs), 'iter+cond' if it.get('cond') else 'iter'])
+                    occs.append([nm(it['it']), ROLES['use'], s, len(occs)])
+                if it.get('cond'):
+                    parts.append([len(occs), 'cond'])
+                    occs.append([nm(it['cond']), ROLES['use'], t, len(occs)])
+    parts = []
     walk(prog, 0)
-    return {'scopes': scopes, 'occs': occs, 'names': names}
+    return {'scopes': scopes, 'occs': occs, 'names': names, 'compparts': parts}
+
+
+def has_cond(prog):
+    for it in prog:
+        if it['k'] == 'comp' and it.get('cond'):
+            return True
+        if it['k'] == 'def' and has_cond(it['body']):
+            return True
+    return False
+
+
+def enumerate_comp_iter(conds=False):
+    """every comprehension `[x for v in y]` / `[x for v in (y)]` (with conds: `.. if c`) over names
+    {a, b} in every kind of enclosing scope (module, function, class body, nested function, method)
+    with both names bound at module level and optionally rebound in the enclosing scopes: the
+    loop-target / element / iterable / condition name coincidences exhaustively"""
+    names = ('a', 'b')
+    B = lambda x: {'k': 'bind', 'x': x}
+    F = lambda name, body: {'k': 'def', 'kind': 'function', 'name': name, 'params': [], 'body': body}
+    C = lambda name, body: {'k': 'def', 'kind': 'class', 'name': name, 'params': [], 'body': body}
+    call = lambda f: {'k': 'call', 'x': f, 'n': 0}
+    pre = [B('a'), B('b')]
+    for v in names:
+        for x in names:
+            for y in names:
+                for itf in ('bare', 'paren'):
+                    for c in (names if conds else (None,)):
+                        comp = {'k': 'comp', 'var': v, 'x': x, 'it': y, 'itf': itf}
+                        if c:
+                            comp['cond'] = c
+                        yield pre + [comp]
+                        for rebind in ([], [B('a')], [B('a'), B('b')]):
+                            yield pre + [F('f', rebind + [comp]), call('f')]
+                            yield pre + [C('K', rebind + [comp])]
+                            yield pre + [F('f', rebind + [F('g', [comp]), call('g')]), call('f')]
+                            yield pre + [F('f', [B('b')] + [F('g', rebind + [comp]), call('g')]), call('f')]
+                            yield pre + [C('K', rebind + [F('g', [comp]), call('g')])]
+                        # the iterable's name is bound only AFTER the comprehension in the function:
+                        # a local, unbound at run time (no claim), never the module's
+                        yield pre + [F('f', [comp, B(y)]), call('f')]
